@@ -21,6 +21,7 @@ Check(r, i) ==
 Verdict(r) ==
   IF r.panic # "" THEN [why |-> "panic", b |-> 0]
   ELSE IF ~r.ok THEN [why |-> "unexpected SGR parameter structure", b |-> 0]
+  ELSE IF ~r.hist THEN [why |-> "an encoder that had resolved other colours / roles before encodes a command differently from a fresh encoder", b |-> 0]
   ELSE LET bad == { i \in 1..Len(r.bs) : Check(r, i) # "ok" } IN
        IF bad = {} THEN [why |-> "ok", b |-> 0]
        ELSE LET i == CHOOSE i \in bad : \A j \in bad : i <= j IN [why |-> Check(r, i), b |-> r.bs[i]]
